@@ -584,7 +584,19 @@ func (w *world) apply(a *Action, ds []*daemon) {
 				d.handler.ServeHTTP(rec, httptest.NewRequest("GET", a.Path, nil))
 			}()
 			x.V = int64(rec.Code)
-			x.B = rec.Body.Bytes()
+			switch {
+			case strings.HasPrefix(a.Path, "/debug/pprof"):
+				// the pprof index lists live goroutine/heap counts of the process: not part of the run
+			case rec.Code >= 500:
+				// error bodies list collector errors in map order: keep the first line only
+				b := rec.Body.Bytes()
+				if i := bytes.IndexByte(b, '\n'); i >= 0 {
+					b = b[:i]
+				}
+				x.B = b
+			default:
+				x.B = rec.Body.Bytes()
+			}
 			w.log.Add(x)
 		}()
 	case "series":
